@@ -82,7 +82,8 @@ def laplacians(name):
             mesh = meshgen.build(coords, (), faces)
             nc = len(mesh.face_corners)
             C = [sx.real("cot%d" % c) for c in range(nc)]
-            if cotan:
+            if cotan or sx.flag("mesh_carries_a_cotan_attribute"):
+                # (with cotan=False the attribute is the trace of an earlier computation: uniform weights do not look at it)
                 a = mesh.face_corners.create_attribute("cotan", float, dense=True)
                 for c in range(nc):
                     a[c] = C[c]
